@@ -258,6 +258,10 @@ func (g *gen) applyModel(op Op) {
 		if len(op.Path) == 0 || en == nil || en.B != nil {
 			return
 		}
+		if op.Kind == "cdel" && op.N == 1 {
+			g.dirt[mb] = true // overwritten, still present
+			return
+		}
 		delete(mb.M, key)
 		g.dirt[mb] = true
 	case "mkb", "mkbi":
@@ -553,6 +557,13 @@ func (g *gen) genOp(writable bool) []Op {
 			if op.Pad > 300 {
 				op.Pad = 0
 			}
+		}
+		if g.t.Chance(1, 3) {
+			// variant: the positioned cursor is kept across a Put of the same key (N=1) instead of Cursor.Delete
+			op.N = 1
+			op.VLen = g.valLen()
+			g.tag++
+			op.VTag = g.tag
 		}
 		return []Op{op}
 	case 16:
